@@ -2,7 +2,7 @@
    proofs in proofs/Rack_p.v, Frame_p.v, Containers_p.v, Owner_p.v, Cinv_p.v. *)
 From Coq Require Import ZArith QArith List Bool Permutation.
 From EosV Require Import lib.AList gen.T_eos model.World model.Ops model.Wf proofs.Rack_p proofs.Frame_p
-     proofs.Containers_p proofs.Owner_p proofs.Cinv_p.
+     proofs.Containers_p proofs.Owner_p proofs.Cinv_p proofs.Runs_p proofs.RunsC_p proofs.RunsD_p.
 Import ListNotations.
 
 (* no trailing holes remain; trimming changes neither items nor their positions *)
@@ -135,6 +135,20 @@ Theorem C07_every_operation_keeps_consistency : forall w o,
   CI w -> op_okb w o = true -> CI (fst (fst (md_op w o))).
 Proof. intros w o C H. apply md_op_CI; [exact C|now apply op_okb_ok]. Qed.
 
+(* PARTIAL for the containers that items themselves are (a module's charge slot, every item's autocharge
+   dictionary): after every clean history in flat worlds (op_okb3, see props/C05.v) an item that names an
+   item container is listed by it, and an unloaded item holds no autocharges. The converse direction (a listed
+   item names its holder) and the absence of double listing are not proved; they are compared after every call
+   by the correspondence (fitdump lines: cont / charge / autos of every item). *)
+Theorem C07_item_containers_list_their_items_partial : forall pen ops,
+  ops_clean3b (init_sys pen) ops = true ->
+  let w := s_w (run (init_sys pen) ops) in
+  (forall c cit m, get_item w c = Some cit ->
+     (i_cont cit = Some (PCharge m) -> exists mit, get_item w m = Some mit /\ i_charge mit = Some c) /\
+     (i_cont cit = Some (PAuto m) -> exists mit, get_item w m = Some mit /\ In c (map snd (i_autos mit)))) /\
+  (forall i it, get_item w i = Some it -> i_loaded it = None -> i_autos it = []).
+Proof. exact item_containers_list_their_items. Qed.
+
 Definition c07_demo : list op :=
   [ ONewItem 1 CShip 100 1 0; ONewItem 2 CModHigh 200 1 0; ONewItem 3 CModHigh 201 1 0;
     ONewFit 10 4; OSlot 10 SlShip (Some 1%nat); ORackAppend 10 RHigh 2; ORackPlace 10 RHigh 3 3;
@@ -182,3 +196,4 @@ Print Assumptions C07_remove_clears_exactly_one_reference.
 Print Assumptions C07_load_unload_keep_references.
 Print Assumptions C07_containers_consistent_after_every_history.
 Print Assumptions C07_every_operation_keeps_consistency.
+Print Assumptions C07_item_containers_list_their_items_partial.
